@@ -969,7 +969,9 @@ PROFILES = {
     "agg": dict(mutate=3, mutate_window=2, filter=3, select=1, rename=1, arrange=3, slice=2, group_by=5, ungroup=1, summarize=6, alias=2),
     "window": dict(mutate=2, mutate_window=6, filter=3, select=2, rename=1, arrange=3, slice=2, group_by=3, ungroup=2, alias=2),
     "join": dict(mutate=3, filter=3, select=2, rename=2, arrange=1, join=6, alias=2, union=2, mutate_window=1, summarize=1, group_by=1),
-    "tall": dict(mutate=5, mutate_window=2, filter=3, select=1, rename=1, arrange=2, slice=1, group_by=2, summarize=2, alias=1, join=1),
+    # (no joins on the tall tables: a self-join on a duplicate-heavy key of 128 rows followed by another join makes ~10^6 pairs,
+    #  which the list-based Lean evaluator does not finish in the time a check has)
+    "tall": dict(mutate=5, mutate_window=2, filter=3, select=1, rename=1, arrange=2, slice=1, group_by=2, summarize=2, alias=1),
     "slices": dict(arrange=3, slice=7, filter=2, mutate=2, select=1, rename=1),
     "union": dict(mutate=3, filter=3, select=2, drop=1, rename=2, arrange=1, slice=1, union=6, alias=1, group_by=2, summarize=3, mutate_window=1),
     "subquery": dict(mutate=2, mutate_window=4, filter=4, arrange=2, slice=4, group_by=3, summarize=4, alias=4, join=2, union=1, ungroup=1),
